@@ -137,9 +137,23 @@ Definition xrchunk_obs (c : N) : sval :=
 
 (* (hist <pkt> (op...)): a history of read-only operations on one value.  Results are a function of
    the value alone; the only state is ExtendedReport's block-header bookkeeping, filled in by Marshal. *)
-Definition xr_after_marshal (p : packet) : packet :=
+Fixpoint xr_after_marshal (p : packet) : packet :=
   match p with
   | PXR x => PXR {| xr_sender := xr_sender x; xr_blocks := map setup_block (xr_blocks x) |}
+  | PCompound l =>
+      (* Marshal validates first and stops at the first member that fails *)
+      match Compound_validate l with
+      | Ok _ =>
+          PCompound ((fix go (l : list packet) : list packet :=
+                        match l with
+                        | [] => []
+                        | q :: r => match marshal_packet q with
+                                    | Ok _ => xr_after_marshal q :: go r
+                                    | _ => xr_after_marshal q :: r
+                                    end
+                        end) l)
+      | _ => PCompound l
+      end
   | q => q
   end.
 Fixpoint hist_run (p : packet) (ops : list sval) : option (list sval * packet) :=
